@@ -117,4 +117,14 @@ CHECKS["C06"] = {
             "strict pcapng reader that verifies block structure, length fields, checksums and TCP reassembly.",
     "note": TRUST + "Byte-level serialisation and checksums are produced by scapy/dpkt and are checked only on the concrete samples (not decided symbolically). Lemma L1 is discharged by cvc5 on every run for each divisor used.",
 }
+CHECKS["C09"] = {
+    "technique": "z3 regular-expression inclusion for the key-log line filter lifted from the source; symbolic execution of the TLS/QUIC key consumers under solver-chosen permutations/decorations of the key log; main.run with the secrets delivered by file / DSBs / both, with os.path.exists symbolic",
+    "text": "z3 decides that every NSS key log line (all labels, either hex case, any secret length) is accepted by the regular "
+            "expression in get_key_from_line and that its three fields are what Key extracts; for TLS <=1.2, TLS 1.3 and QUIC "
+            "connections every permutation of the key-log entries, a duplicate and unrelated entries give the same export; and "
+            "main.run produces identical writer calls whether the secrets arrive in a file (LF or CRLF, comments, blank and unrelated "
+            "lines, upper-case hex), in one or several decryption-secrets blocks, before or (TLS) after the packets, combined with a "
+            "file, or as the only source without -s from any working directory.",
+    "note": TRUST + "Models as in C01/C02. In the delivery harness secrets are concrete (they travel as text) and application data symbolic; the capture reader and file system are stubs (dpkt's DSB block parsing is C12's subject).",
+}
 NOT_APPLICABLE = {}
